@@ -124,6 +124,18 @@ CLAIMED = {
         technique="symbolic execution of the real Python/C code + forward-mode AD of a reference energy; QF_UFNRA "
                   "validity queries (z3 nlsat + cvc5 portfolio)",
         design="3.3"),
+    "C13": dict(
+        text="The real TreeStateHandler/TreePhysicalState/TreeLiftingState run on trees (1-3 roots x 0-3 children) "
+             "whose every stored number is a distinct symbol; for every choice of two extracted branches, every unit "
+             "and 7 kinds of in-place/replacing mutation, insertion and a fresh extraction, the solver proves that "
+             "all values read from the global state, from the other branch and from the fresh branch equal a "
+             "value-semantics reference (no symbol leaks through an alias); extract_active equals the "
+             "independent-active rule for every lifted subset.",
+        note="Bounded operation sequences (extract, extract, mutate, insert, extract, mutate); trees of at most 2 "
+             "levels; structural part is an explorer-driven enumeration, value comparison is a solver query per path.",
+        technique="symbolic execution of the real Python code with taint symbols, explorer-enumerated operation "
+                  "sequences, one QF_LRA equality query per path",
+        design="3.13"),
 }
 
 NOT_APPLICABLE = {
